@@ -299,15 +299,36 @@ func (u *Unit) frameObligations(fn *ssa.Function, c *Contract, fr *Frame, entry,
 		u.oblige(exit, "modifies", name, label, fmt.Sprintf("contracts:%d", c.Line), True, tags)
 		return
 	}
-	u.oblige(exit, "modifies", name, label, fmt.Sprintf("contracts:%d", c.Line), And(goals...), tags)
+	for gi, g := range goals {
+		l := label
+		if len(goals) > 1 {
+			l = fmt.Sprintf("%s.%d", label, gi)
+		}
+		u.oblige(exit, "modifies", name, l, fmt.Sprintf("contracts:%d", c.Line), g, tags)
+	}
 }
 
 // Query assembles the SMT-LIB text for one obligation.
 func (e *Engine) Query(o *Obligation, prelude string) string {
+	return e.query(o, prelude, false)
+}
+
+// QueryLite: the same obligation with every quantified assumption of the unit left out (loop invariants,
+// heap well-formedness, quantified callee postconditions). Fewer assumptions: an `unsat` answer is still a proof.
+// Error-return paths and most panic obligations are decided from the path conditions alone, and this keeps them
+// independent of the (sometimes unstable) instantiation behaviour on the quantified context.
+func (e *Engine) QueryLite(o *Obligation, prelude string) string {
+	return e.query(o, prelude, true)
+}
+
+func (e *Engine) query(o *Obligation, prelude string, lite bool) string {
 	var body strings.Builder
 	u := o.Unit
 	body.WriteString("; ---- unit " + u.name + " ----\n")
 	for _, c := range u.cmds[:o.Prefix] {
+		if lite && strings.HasPrefix(c, "(assert ") && (strings.Contains(c, "(forall ") || strings.Contains(c, "(exists ")) {
+			continue
+		}
 		body.WriteString(c)
 		body.WriteString("\n")
 	}
